@@ -8,7 +8,9 @@ package serverinterceptors
 
 import (
 	"context"
+	"errors"
 	"fmt"
+	"io"
 	"testing"
 	"time"
 
@@ -34,8 +36,28 @@ func c01CodeErr(c gcodes.Code) error {
 	return status.Error(c, "c01")
 }
 
+// c01NonStatus: errors that carry no gRPC status. Under gRPC's own definition
+// (status.Code) such an error has code Unknown (a wrapped benign status has either
+// its own code or Unknown), which is not in the statement's failing set; raw
+// context.Canceled is named benign explicitly. Raw context.DeadlineExceeded and
+// wrapped failing statuses are left unasserted (the statement leaves them open).
+type c01PlainErr struct{ msg string }
+
+func (e c01PlainErr) Error() string { return e.msg }
+
+var c01NonStatus = []struct {
+	name string
+	err  error
+}{
+	{"errors.New", errors.New("c01 plain error")},
+	{"custom-error-type", c01PlainErr{"c01 custom error type"}},
+	{"raw-context.Canceled", context.Canceled},
+	{"io.EOF", io.EOF},
+	{"wrapped-NotFound-status", fmt.Errorf("c01 wrap: %w", status.Error(gcodes.NotFound, "c01"))},
+}
+
 func TestVerifC01ServerInterceptorTable(t *testing.T) {
-	m := vk.New(t, "C01", "serverinterceptors.UnaryBreakerInterceptor and StreamBreakerInterceptor with a handler answering one gRPC code, one FullMethod (= one named breaker) per row and flavour, virtual clock frozen: benign code x150 => handler always runs; failing code x400 => at least one call short-circuited with ErrServiceUnavailable; 10000 mixed benign codes => 0 rejections; non-trivial = row completed (benign) / rejected (failing)")
+	m := vk.New(t, "C01", "serverinterceptors.UnaryBreakerInterceptor and StreamBreakerInterceptor with a handler answering one gRPC code, one FullMethod (= one named breaker) per row and flavour, virtual clock frozen: benign code x150 and each error without a gRPC status (plain, custom type, raw context.Canceled, io.EOF, wrapped benign status) x150 => handler always runs; failing code x400 => at least one call short-circuited with ErrServiceUnavailable; 10000 mixed benign codes => 0 rejections; non-trivial = row completed (benign) / rejected (failing)")
 	defer m.Done()
 	logx.Disable()
 	stat.SetReporter(nil)
@@ -44,21 +66,24 @@ func TestVerifC01ServerInterceptorTable(t *testing.T) {
 	r := m.Rand("server")
 	perBenign := vk.N(150, 2000)
 	perBad := vk.N(400, 4000)
-	call := func(flavour, method string, c gcodes.Code) (ran bool, err error) {
+	callErr := func(flavour, method string, answer error) (ran bool, err error) {
 		if flavour == "unary" {
 			_, err = UnaryBreakerInterceptor(context.Background(), nil, &grpc.UnaryServerInfo{FullMethod: method},
 				func(ctx context.Context, req interface{}) (interface{}, error) {
 					ran = true
-					return nil, c01CodeErr(c)
+					return nil, answer
 				})
 			return
 		}
 		err = StreamBreakerInterceptor(nil, nil, &grpc.StreamServerInfo{FullMethod: method},
 			func(srv interface{}, stream grpc.ServerStream) error {
 				ran = true
-				return c01CodeErr(c)
+				return answer
 			})
 		return
+	}
+	call := func(flavour, method string, c gcodes.Code) (bool, error) {
+		return callErr(flavour, method, c01CodeErr(c))
 	}
 	tag := fmt.Sprintf("%d.%d", vk.Seed(), vk.Seq())
 	for fi, flavour := range []string{"unary", "stream"} {
@@ -113,11 +138,36 @@ func TestVerifC01ServerInterceptorTable(t *testing.T) {
 				m.Sample(map[string]any{"scenario": fmt.Sprintf("%s x%d through %s interceptor", name, perBad, flavour), "short_circuited": rej, "first_at_call": first})
 			}
 		}
+		var benignErrs []error
+		for i, row := range c01NonStatus {
+			if c01Failing[status.Code(row.err)] {
+				m.Skip("non-status row " + row.name + ": status.Code maps it to a failing code")
+				continue
+			}
+			benignErrs = append(benignErrs, row.err)
+			method := fmt.Sprintf("/c01.%s.%s/nonstatus%d", tag, flavour, i)
+			desc := fmt.Sprintf("case=%d;%s handler always answers the non-status error %s", fi*100+60+i, flavour, row.name)
+			okRow := true
+			for k := 0; k < perBenign; k++ {
+				ran, err := callErr(flavour, method, row.err)
+				m.Count("calls_benign_non_status_"+flavour, 1)
+				if !ran {
+					m.Violate("C01:benign:grpc-server-"+flavour+":non-status:"+row.name+":rejected", desc, "call #%d short-circuited (%v) after only %s outcomes (gRPC code %s)", k, err, row.name, status.Code(row.err))
+					okRow = false
+					break
+				}
+			}
+			m.Case(flavour+"-benign-nonstatus-"+row.name, okRow)
+		}
 		method := fmt.Sprintf("/c01.%s.%s/mixed", tag, flavour)
 		n := vk.N(10000, 200000)
 		for i := 0; i < n; i++ {
 			c := benign[r.Intn(len(benign))]
-			ran, err := call(flavour, method, c)
+			answer := c01CodeErr(c)
+			if len(benignErrs) > 0 && r.Intn(4) == 0 {
+				answer = benignErrs[r.Intn(len(benignErrs))]
+			}
+			ran, err := callErr(flavour, method, answer)
 			m.Count("calls_benign_mixed_"+flavour, 1)
 			if !ran {
 				m.Violate("C01:benign:grpc-server-"+flavour+":mixed:rejected", fmt.Sprintf("case=%d;mixed benign codes on one method", fi*100+50), "call #%d (%s) short-circuited (%v)", i, c, err)
